@@ -20,7 +20,8 @@ same for percentages with up to six decimals (theorem `capUnits_eq_capExact`).
 Spill-over is an opt-in feature the property text does not mention; its reference semantics here is the
 documented one, per grid window: when a key enters a new grid window of an unchanged window size (and it is
 not the key's first request) its spill-over becomes 0 on the renew day, else grows by `allowed − passes in
-the previously active window`; a window-size change leaves it as it is; it is added to `allowed` before scaling.
+the previously active window`; a window-size change leaves it as it is; a request whose configuration has the
+feature switched off sees none (and drops what was collected); it is added to `allowed` before scaling.
 -/
 namespace LunarVerif.C09
 
@@ -45,19 +46,19 @@ def regimeW (W : Nat) (l : List (Event κ)) : List (Event κ) := l.takeWhile (fu
     window-size change (counting starts afresh when the configured window length changes). -/
 def regime (e : Event κ) (older : List (Event κ)) : List (Event κ) := regimeW e.wd.W older
 
-/-- Reference spill-over in force for the most recent event of a single-key history (most recent first). -/
+/-- Reference spill-over in force for the most recent event of a single-key history (most recent first):
+    none while the feature is off for the request's configuration. -/
 def refSpill : List (Event κ) → Int
   | [] => 0
   | e :: older =>
-    match older with
+    if !e.wd.spillOn then 0
+    else match older with
     | [] => 0
     | p :: _ =>
       if p.wd.W != e.wd.W then refSpill older                      -- window size changed: carried over as is
       else if e.t / e.wd.W == p.t / e.wd.W then refSpill older     -- same grid window
-      else if e.wd.spillOn then
-        (if dayOfMonth e.t == e.wd.renewDay then 0
-         else refSpill older + e.wd.allowed - passesInWin e.wd.W (p.t / e.wd.W) (regime e older))
-      else refSpill older
+      else if dayOfMonth e.t == e.wd.renewDay then 0
+      else refSpill older + e.wd.allowed - passesInWin e.wd.W (p.t / e.wd.W) (regime e older)
 
 /-- The newest event `e` of a key against the key's earlier events. -/
 def eventOk (cap : CapFn) (e : Event κ) (older : List (Event κ)) : Bool :=
